@@ -209,3 +209,12 @@ package table
 //@   assert[all-bytes-copied] before call copy : arg1 == data && arg0 == ret(allocate#1)
 //@   assert[room-for-all] before call allocate : arg1 == len(data)
 
+// CreateTable: the whole built table is copied into the new file and msync'ed before the table
+// is opened (and so before it can be recorded in the MANIFEST); an existing file is an error.
+//@ func CreateTable
+//@   props C10 C08
+//@   light
+//@   assert[synced-before-use] before call OpenTable : called(Msync#1) && ret(Msync#1) == nil && arg0 == ret0(OpenMmapFile#1)
+//@   assert[sync-the-file-data] before call Msync : arg0 == ret0(OpenMmapFile#1).Data && called(Copy#1)
+//@   assert[fresh-file-only] before call Copy : ret1(OpenMmapFile#1) == z.NewFile
+
